@@ -2,7 +2,7 @@
 Helpers for C06 (errors propagate as values; violations cannot be caught) over the core
 evaluator `XrayModel/Core.lean`: the prefix law of `evalList`/`evalDecls`, evaluation contexts.
 -/
-import XrayProofs.Core
+import XrayProofs.CoreMono
 namespace XrayModel.Core
 
 /-- `SeqVals cfg fr n es st vs st'`: the expressions `es`, evaluated left to right from state `st`
